@@ -184,6 +184,21 @@ check("C15",
       "TLA+ border-walk function checked with TLC over MeshEnum (C15_MC); TLC trace validation with integer dihedral arithmetic (C15_Trace)",
       "DESIGN.md 6.15")
 
+check("C16",
+      "TLC checks the design of the cutting algorithm independently of edge weights: on the tetrahedron, a 4-triangle disk, a "
+      "6-triangle annulus and (thorough) the octahedron, for every singularity set, every forest linking it to the border and "
+      "EVERY dual spanning tree avoiding that forest, complement + pruning + re-gluing yields an oriented manifold disk with every "
+      "singular vertex on its border and a connected cut graph containing the border (documented design gap: a one-edge cut graph "
+      "on a closed surface). The real SingularityCutter runs on the same surfaces for all singularity sets and on lattice disks, "
+      "cylinders, tori and library shapes up to ~120 faces for many sets, with and without a FeatureEdgeDetector; its singularity "
+      "tree and dual tree are recorded by wrapping the two builder methods; TLC re-glues the input along the REPORTED cut edges and "
+      "validates: same faces / corner positions, ref_vertex onto and face-wise consistent, exactly the reported edges opened, "
+      "dual tree spanning and avoiding the singularity tree, cut = pruned complement, disk, singular vertices on the border, cut graph connected.",
+      "Connected oriented manifold triangulations with distinct integer positions. Two open known findings (single-edge cut on a closed "
+      "surface; feature mode enclosing faces).",
+      "TLA+ design model over all dual spanning trees (C16_MC, C16_Cutting) checked with TLC; TLC trace validation of the real cutter's trees and output (C16_Trace)",
+      "DESIGN.md 6.16")
+
 ALL = ["C%02d" % i for i in range(1, 21)]
 
 
